@@ -49,6 +49,13 @@ def gen_case(rng, big):
         s = case['s'] = 1
         nin = npix
         case['axes'] = [np.cumsum([0.0] + [float(rng.choice([0.25, 0.5, 1.0, 1.5])) for _ in range(d - 1)]).tolist() for d in dims]
+    if 'axes' not in case and rng.random() < 0.2:
+        # one subsampling factor per axis (D181), in one of the spellings the docstring allows
+        ss = [int(rng.integers(1, 4)) for _ in range(ndim)] if ndim < 3 else [int(rng.integers(1, 3)) for _ in range(3)]
+        case['ss'] = ss
+        case['spell'] = str(rng.choice(['array', 'array', 'list', 'float-array']))
+        case['s'] = s = max(ss)
+        nin = int(np.prod([d * f for d, f in zip(dims, ss)]))
     if kind == 'noisy-det':
         case['dark'] = dyadic(rng, 0, 4, 3)
         case['flat'] = [dyadic(rng, 0.5, 1.5, 4) for _ in range(npix)]
@@ -191,6 +198,24 @@ def add_setters(rng, case, npix):
     case['ops'] = new
 
 
+def factors(case):
+    """the subsampling factors per axis, (x, y, ..) order"""
+    return list(case['ss']) if 'ss' in case else [case['s']] * len(case['dims'])
+
+
+def sub_arg(case):
+    """the `subsampling` argument the detector is constructed with"""
+    if 'ss' not in case:
+        return case['s']
+    ss = case['ss']
+    return {'array': lambda: np.array(ss), 'list': lambda: list(ss), 'float-array': lambda: np.array(ss, dtype=float)}[case.get('spell', 'array')]()
+
+
+def model_sub(case):
+    """the factor(s) as the driver wants them: one number, or the per-axis list slowest axis first"""
+    return ('[' + ','.join(str(f) for f in case['ss'][::-1]) + ']') if 'ss' in case else str(case['s'])
+
+
 def D(kind, dims, s, ops, delta=None, **kw):
     c = {'dims': dims, 'delta': delta or [1.0] * len(dims), 's': s, 'kind': kind, 'ops': ops, 'style': 'directed'}
     c.update(kw)
@@ -202,6 +227,12 @@ def _ones(n, v=1.0):
 
 
 DIRECTED = [
+    # one subsampling factor per axis: full histories (several integrations, empty read-outs, scribbles) on both detector classes
+    D('noiseless', [2, 1], 3, [['int', 'field', [float(i) for i in range(12)], 0.5, 2.0, False], ['int', 'plain', [1.0] * 12, 1.0, 1.0, False], ['read'], ['read'],
+                               ['scribble', 0, 7.0], ['call', 'field', [float(i % 5) for i in range(12)], 2.0, 1.0, False]], ss=[2, 3], spell='array'),
+    D('noisy-off', [1, 2], 3, [['int', 'field', [float(i) for i in range(12)], 1.0, 1.0, True], ['read'], ['read']], ss=[3, 2], spell='list'),
+    D('noisy-det', [2, 2], 2, [['int', 'field', [float(i) for i in range(8)], 0.5, 1.0, False], ['read'], ['read']],
+      dark=1.5, flat=[1.0, 0.5, 1.25, 1.0], ss=[1, 2], spell='float-array'),
     # detector grids with non-regular separated coordinates (subsampling 1)
     D('noisy-off', [3, 2], 1, [['int', 'field', [1.0, 2, 3, 4, 5, 6], 0.5, 2.0, False], ['int', 'plain', [1.0, 0, 1, 0, 1, 0], 1.0, 1.0, False], ['read'], ['read']],
       axes=[[0.0, 0.5, 2.0], [0.0, 1.5]]),
@@ -262,7 +293,7 @@ def make_detector(case):
     grid = hcipy.make_uniform_grid(dims, extent)
     if 'axes' in case:
         grid = hcipy.CartesianGrid(hcipy.SeparatedCoords([np.array(a, dtype=float) for a in case['axes']]))
-    s = case['s']
+    s = sub_arg(case)
     if case['kind'] == 'noiseless':
         det = hcipy.NoiselessDetector(grid, s)
     elif case['kind'] == 'noisy-off':
@@ -368,10 +399,10 @@ def run_real(case):
     model = ['C17 reset']
     kind = {'noiseless': 'noiseless', 'noisy-off': 'noisy', 'noisy-det': 'noisy', 'noisy-set': 'noisy'}[case['kind']]
     if kind == 'noisy':
-        model.append('C17 new noisy %d %s %s %s' % (s, '[' + ','.join(str(d) for d in dims[::-1]) + ']', rat(case.get('dark', 0.0)),
+        model.append('C17 new noisy %s %s %s %s' % (model_sub(case), '[' + ','.join(str(d) for d in dims[::-1]) + ']', rat(case.get('dark', 0.0)),
                                                    rat_list(case['flat']) if 'flat' in case else '-'))
     else:
-        model.append('C17 new noiseless %d %s' % (s, '[' + ','.join(str(d) for d in dims[::-1]) + ']'))
+        model.append('C17 new noiseless %s %s' % (model_sub(case), '[' + ','.join(str(d) for d in dims[::-1]) + ']'))
 
     def note_param(prm, spec, o):
         """book-keeping (and model line) for a parameter that has just been given to the detector"""
@@ -517,7 +548,7 @@ def run_real(case):
         inputs.append((buf, snap))
         ikinds_state['l'].append(ik)
         pf = [fr(x) for x in power]
-        b = brute_bin(pf, dims, s)
+        b = brute_bins(pf, dims, factors(case)) if 'ss' in case else brute_bin(pf, dims, s)
         f = fr(dt) * fr(w)
         expected = [a + x * f + d * f for a, x, d in zip(expected, b, cfg['dark'])]
         if any(d != 0 for d in cfg['dark']):
@@ -771,7 +802,7 @@ def check_case(ctx, case, lines, index):
     empty = sum(1 for o in obs if 'got' in o and o.get('pending', 0) == 0)
     ctx.count('kind:' + case['kind'])
     ctx.count('ndim:%d' % len(case['dims']))
-    ctx.count('subsampling:%d' % case['s'])
+    ctx.count('subsampling:%s' % ('per-axis:' + case['spell'] + (':different' if len(set(case['ss'])) > 1 else ':equal') if 'ss' in case else case['s']))
     ctx.count('detector-grid:' + ('separated-non-regular' if 'axes' in case else 'regular'))
     ctx.count('style:' + case['style'])
     ctx.count('readouts', nread)
@@ -794,7 +825,7 @@ def check_case(ctx, case, lines, index):
             ctx.count('caller-' + op[0])
         if op[0] == 'bad':
             ctx.count('wrong-size-input:' + op[1])
-    sig = (case['kind'], tuple(case['dims']), case['s'], nread, nint, multi > 0, empty > 0)
+    sig = (case['kind'], tuple(case['dims']), tuple(factors(case)), nread, nint, multi > 0, empty > 0)
     ctx.case({'kind': case['kind'], 'dims': case['dims'], 's': case['s'], 'ops': [op[0] for op in case['ops']]} if nread > 1 else None,
              nontrivial_key=sig if nread >= 1 else None)
     base = len(lines)
